@@ -3,12 +3,17 @@
 package httpheader
 
 /*@
-// what the configured header rules decide: a function of the rule set and of the header map (uninterpreted)
-ufunc hdrRulesAccept(spec int, h int) bool
+// C06, "the configured header rules": for every header name in the rule set the request carries that header, and
+// its first value is one of the listed values or matches the rule's regexp (only the first value of a repeated
+// header is looked at: that is what the code does, stated here so that a change of it is noticed)
+pred valueOK(vv *ValueValidator, value string) := stringtool.inSlice(value, vv.Values) || (vv.re != nil && reMatch(ref(vv.re), value))
+pred ruleOK(vv *ValueValidator, key string, hm http.Header) := (canon(key) in hm) && len(hm[canon(key)]) >= 1 && valueOK(vv, hm[canon(key)][0])
+pred hdrRulesAccept(spec *ValidatorSpec, hm http.Header) := forall k string :: (k in *spec) ==> ruleOK((*spec)[k], k, hm)
 
 func (v Validator) Validate(h *HTTPHeader) (err error)
-  trusted
-  pure
-  requires h != nil
-  ensures (err == nil) <==> hdrRulesAccept(ref(v.spec), ref(h.h))
+  requires h != nil && v.spec != nil && (forall k string :: (k in *v.spec) ==> (*v.spec)[k] != nil)
+  modifies nothing
+  ensures decision: (err == nil) <==> hdrRulesAccept(v.spec, h.h)
+  invariant[1] forall j int :: 0 <= j && j < idx$1 ==> ruleOK((*v.spec)[keys$1[j]], keys$1[j], h.h)
+  invariant[2] idx$2 == 0 && 0 <= idx$1 && idx$1 < len(*v.spec) && key == keys$1[idx$1] && vv == (*v.spec)[key] && (forall j int :: 0 <= j && j < idx$1 ==> ruleOK((*v.spec)[keys$1[j]], keys$1[j], h.h))
 @*/
